@@ -130,3 +130,28 @@ pub fn logical_type(dt: &arrow::datatypes::DataType) -> String {
         other => format!("{other}"),
     }
 }
+
+/// Generator fragment selected by `--opt fragment=simple|full` plus per-construct switches
+/// (`--opt subqueries=0/1`, `windows`, `setops`, `ctes`, `series`, `grouping_sets`, `semi_anti`).
+pub fn gen_cfg_from(args: &Args, default_fragment: &str) -> GenCfg {
+    let frag = args.opt_str("fragment").unwrap_or(default_fragment);
+    let mut c = GenCfg::default();
+    if frag == "simple" {
+        c.subqueries = false;
+        c.windows = false;
+        c.setops = false;
+        c.ctes = false;
+        c.series = false;
+        c.grouping_sets = false;
+        c.semi_anti_joins = false;
+    }
+    let sw = |name: &str, cur: bool| args.opt_str(name).map(|v| v == "1").unwrap_or(cur);
+    c.subqueries = sw("subqueries", c.subqueries);
+    c.windows = sw("windows", c.windows);
+    c.setops = sw("setops", c.setops);
+    c.ctes = sw("ctes", c.ctes);
+    c.series = sw("series", c.series);
+    c.grouping_sets = sw("grouping_sets", c.grouping_sets);
+    c.semi_anti_joins = sw("semi_anti", c.semi_anti_joins);
+    c
+}
